@@ -490,6 +490,49 @@ func c02Check(c *core.Case, sp *c02Spec, bitsPerByte int) {
 		accepts++
 	}
 
+	// New keys on the same sessions (a later hello exchange between the two
+	// routers, in either role): the round trip holds again, frames of the old
+	// keys do not unseal any more.
+	if c.Chance("rekey", 1, 3) {
+		client, server, who := p.sAB, p.sBA, "sender"
+		if c.Bool("rekey.receiver-initiates") {
+			client, server, who = p.sBA, p.sAB, "receiver"
+		}
+		// (some more traffic under the old keys first, so that the numbering is
+		// well past the replay window when the new keys arrive)
+		for k, n := 0, core.OneOf(c, "rekey.traffic-before", 0, 70, 130); k < n; k++ {
+			w2, err := c02Seal(sp, sb, p)
+			if err != nil {
+				c.Fatalf("seal: %v", err)
+			}
+			if _, perr, uerr := c02Unseal(rb, sp.offR, sp.ovR, w2, p.sBA); perr != nil || uerr != nil {
+				c.Fatalf("frame %d of a run of intact frames does not unseal: parse=%v unseal=%v", k+1, perr, uerr)
+			}
+		}
+		if err := vnet.KeyExchangeAsHello(client, server); err != nil {
+			c.Fatalf("second key exchange: %v", err)
+		}
+		for k := 0; k < 2; k++ {
+			w2, err := c02Seal(sp, sb, p)
+			if err != nil {
+				c.Fatalf("seal after new keys (%s initiated): %v", who, err)
+			}
+			msg, perr, uerr := c02Unseal(rb, sp.offR, sp.ovR, w2, p.sBA)
+			if perr != nil || uerr != nil {
+				c.Fatalf("after a second key exchange (%s initiated) frame %d does not unseal: parse=%v unseal=%v", who, k+1, perr, uerr)
+			}
+			if !bytes.Equal(msg, sp.payload) {
+				c.Fatalf("after a second key exchange the round trip changed the payload")
+			}
+		}
+		if encrypted {
+			if _, _, uerr := c02Unseal(rb, sp.offR, sp.ovR, wire, p.sBA); uerr == nil {
+				c.Fatalf("a frame sealed under the previous keys unseals after the second key exchange")
+			}
+		}
+		c.Class("re-keyed-in-place")
+	}
+
 	crossesTier := len(wire)+sp.offS+sp.ovS > 600
 	nt := (len(sp.sw) > 0 || len(sp.apx) > 0 || crossesTier) && rejects > 0 && accepts > 0
 	c.Eval(sp.key(), nt, func() any {
